@@ -44,8 +44,8 @@ var designated = map[byte][][]patElem{
 var armNames = map[byte]string{'P': "Parse", 'B': "Bind", 'D': "Describe", 'E': "Execute", 'C': "Close", 'H': "Flush", 'S': "Sync", 'd': "CopyData", 'c': "CopyDone", 'f': "CopyFail", 'X': "Terminate", 'Q': "Query", 'p': "Password", 0x7f: "other"}
 
 type armRule struct {
-	c   *Ctx
-	arm byte
+	c    *Ctx
+	arm  byte
 	pats [][]patElem
 	// known-finding style reports are keyed by the ErrorCode call site of the arm
 }
